@@ -391,7 +391,11 @@ impl Sm2PrivateKey {
 
 /// generate key pair
 pub fn gen_keypair() -> Sm2Result<(Sm2PublicKey, Sm2PrivateKey)> {
-    let d = random_u256();
+    // a private key is in [1, n-2] (for d = n-1 signing never produces a non-zero s)
+    let mut d = random_u256();
+    while u256_cmp(&d, &SM2_N_MINUS_TWO) > 0 {
+        d = random_u256();
+    }
     let pk = public_from_private(&d)?;
     let sk = Sm2PrivateKey { d, public_key: pk };
     Ok((pk, sk))
